@@ -73,6 +73,11 @@ def hexWords (h : String) : List FsmScan.Word :=
       BitVec.ofNat 64 w :: go (bs.drop 8) f
   go bs (bs.length + 1)
 
+/-- the `pool.copy` call of `reallocate`: `cp=<from>,<n>,<to>` (model: `some (from, to, n)`) -/
+def cpText : Option (Nat × Nat × Nat) → String
+  | some (src, dst, n) => s!"cp={src},{n},{dst}"
+  | none => "cp=-"
+
 def optStr : Option Nat → String
   | some n => s!"1 {n}"
   | none => "0 0"
@@ -130,15 +135,15 @@ def step (d : DSt) (ws : List String) : DSt × String :=
         let r := d.live[i]!
         -- without pattern bytes the harness first makes the old region file-backed (copying from past EOF is C12's subject)
         let d := if d.pat then d else { d with s := ensureSize d.s (r.addr + r.len) }
-        let (s, rc, addr, len, _) := reallocate floatHeur d.s (natArg nlen) r.addr r.len (Flags.ofNat (natArg flags))
+        let (s, rc, addr, len, cp) := reallocate floatHeur d.s (natArg nlen) r.addr r.len (Flags.ofNat (natArg flags))
         let d := { d with s := s }
         if rc = .ok then
           let d := if len = 0 then { d with live := d.live.eraseIdx! i } else { d with live := d.live.set! i ⟨addr, len⟩ }
-          (patWrite d addr len, s!"realloc 0 {r.addr} {r.len} {addr} {len} pat=ok bm={s.bmoff},{s.bmlen}")
-        else (d, s!"realloc {rc.name} {r.addr} {r.len} {r.addr} {r.len} pat=ok bm={s.bmoff},{s.bmlen}")
+          (patWrite d addr len, s!"realloc 0 {r.addr} {r.len} {addr} {len} pat=ok bm={s.bmoff},{s.bmlen} {cpText cp}")
+        else (d, s!"realloc {rc.name} {r.addr} {r.len} {r.addr} {r.len} pat=ok bm={s.bmoff},{s.bmlen} {cpText cp}")
     | ["rawrealloc", a, olen, nlen, flags] =>
-      let (s, rc, addr, len, _) := reallocate floatHeur d.s (natArg nlen) (addrSpec d a) (natArg olen) (Flags.ofNat (natArg flags))
-      ({ d with s := s }, if rc = .ok then s!"rawrealloc 0 {addr} {len}" else s!"rawrealloc {rc.name} 0 0")
+      let (s, rc, addr, len, cp) := reallocate floatHeur d.s (natArg nlen) (addrSpec d a) (natArg olen) (Flags.ofNat (natArg flags))
+      ({ d with s := s }, if rc = .ok then s!"rawrealloc 0 {addr} {len} {cpText cp}" else s!"rawrealloc {rc.name} 0 0 {cpText cp}")
     | ["status", a, l, al] =>
       let addr := addrSpec d a
       let len := if l == "=" then (match liveIdx d a with | some i => (d.live[i]!).len | none => 0) else natArg l
